@@ -514,6 +514,7 @@ func c02BuilderScopes(c *Ctx) map[string]map[string]int {
 		}
 		out[kind] = m
 	}
+	builderOperandScopes(c, "C02-d")
 	// rule level
 	wrc := load.FuncDecl(bp, "builder", "writeRuleCode")
 	if wrc != nil {
@@ -817,4 +818,76 @@ func replaceOperand(text, field, by string) string {
 		}
 		text = text[end:]
 	}
+}
+
+// builderOperandScopes: operands that the runtime evaluates in one variable frame share one label scope in the
+// builder (rule id given by the caller: C02-d, C04-n).
+func builderOperandScopes(c *Ctx, rule string) {
+	r := c.R
+	g := c.G()
+	if g == nil {
+		return
+	}
+	bp := g.Pkg("builder")
+	fd := load.FuncDecl(bp, "builder", "writeExprCode")
+	if fd == nil {
+		return
+	}
+	si := typeSwitchOn(fd, fd.Type.Params.List[0].Names[0].Name)
+	nc := c.builderNorm()
+	b, xp := recvName(fd), firstParam(fd)
+	// operands that the runtime evaluates in one variable frame share one label scope in the builder: the two operands
+	// of a recovery operator (the handler's code blocks may name the labels of the guarded expression; the runtime
+	// pushes no frame for either), and the items of a sequence (a later item's block names an earlier item's label)
+	sameScope := func(kind string, operands ...string) {
+		cc := si.Cases[kind]
+		if cc == nil {
+			return
+		}
+		var bad []string
+		n := 0
+		for _, p := range nc.normBlock(fd, cc.Body) {
+			inst, next := []int{0}, 0
+			seen := map[string]int{}
+			inLoopPush := false
+			loopDepth := 0
+			for _, e := range p {
+				switch {
+				case e.Kind == "loop":
+					loopDepth++
+				case e.Kind == "endloop":
+					loopDepth--
+				case e.Kind == "call" && e.Text == b+".pushArgsSet()":
+					next++
+					inst = append(inst, next)
+					if loopDepth > 0 {
+						inLoopPush = true
+					}
+				case e.Kind == "call" && e.Text == b+".popArgsSet()":
+					if len(inst) > 1 {
+						inst = inst[:len(inst)-1]
+					}
+				case e.Kind == "call" && strings.HasPrefix(e.Text, b+".writeExprCode("):
+					a := strings.TrimSuffix(strings.TrimPrefix(e.Text, b+".writeExprCode("), ")")
+					for _, op := range operands {
+						if a == xp+"."+op || strings.HasPrefix(a, xp+"."+op+"[") {
+							n++
+							if prev, ok := seen["*"]; ok && prev != inst[len(inst)-1] {
+								bad = append(bad, fmt.Sprintf("operand %s is visited in a label scope of its own", op))
+							}
+							seen["*"] = inst[len(inst)-1]
+							if strings.HasPrefix(a, xp+"."+op+"[") && inLoopPush {
+								bad = append(bad, fmt.Sprintf("each element of %s is visited in a label scope of its own", op))
+							}
+						}
+					}
+				}
+			}
+		}
+		r.Check(len(bad) == 0 && n > 0, rule, "G.builder.writeExprCode:kind="+kind+":operands-share-one-scope", "", g.Where(cc.Pos()),
+			fmt.Sprintf("the operands %v are visited within one pushArgsSet/popArgsSet bracket", operands),
+			strings.Join(uniq(bad), "; ")+": the runtime evaluates them in one variable frame, so a code block of one may name a label of the other - its method then lacks that parameter and the generated parser does not compile")
+	}
+	sameScope("RecoveryExpr", "Expr", "RecoverExpr")
+	sameScope("SeqExpr", "Exprs")
 }
